@@ -98,6 +98,28 @@ theorem merge_cli_wins (E : Env) (py : OptMap) (cli : List (Key × Option Val)) 
   subst hp'
   simp [hasKey, hs, validateRoot_ne _ h2, over]
 
+/-- In particular a FALSY value — the empty string of `--special-field-name-prefix ""`, `--base-class ""`,
+`--custom-file-header ""`, `--empty-enum-field-name ""` — is a given value and wins like any other:
+the model keeps `some ""` apart from `none`. -/
+theorem merge_cli_wins_empty (E : Env) (py : OptMap) (cli : List (Key × Option Val)) (c : Cfg) (k : Key)
+    (hm : merge E py cli = some c) (hk : (given cli).lookup k = some (k! ""))
+    (h1 : k ≠ kUA) (h2 : k ≠ kFC) : c k = k! "" :=
+  merge_cli_wins E py cli c k (k! "") hm hk h1 h2
+
+/-- non-vacuity with the empty string: pyproject says "px", the command line says "" → "" is effective;
+an absent flag (`none`) leaves "px"; and `given` keeps the empty value -/
+example :
+    (merge ⟨fun _ => k! "dflt", fun _ => true⟩ [(k! "special_field_name_prefix", k! "px")]
+      [(k! "special_field_name_prefix", some (k! ""))]).map (· (k! "special_field_name_prefix")) = some (k! "") ∧
+    (merge ⟨fun _ => k! "dflt", fun _ => true⟩ [(k! "special_field_name_prefix", k! "px")]
+      [(k! "special_field_name_prefix", none)]).map (· (k! "special_field_name_prefix")) = some (k! "px") ∧
+    given [(k! "a", some (k! "")), (k! "b", none)] = [(k! "a", k! "")] ∧ truthy (k! "") = false := by
+  decide +kernel
+
+/-- `merge_args` selects the command-line values by the reviewed test `is not None` (source text of the
+comprehension's condition, regenerated), which is what `given` models. -/
+theorem merge_filter_is_identity_with_none : mergeArgsFilters = reviewedMergeFilters := by decide +kernel
+
 /-- the same for the two coupled flags, whose command-line value can only be `True` -/
 theorem merge_cli_wins_flag (E : Env) (py : OptMap) (cli : List (Key × Option Val)) (c : Cfg) (k : Key)
     (hm : merge E py cli = some c) (hk : (given cli).lookup k = some k! "True")
